@@ -37,9 +37,19 @@ static int harness_clock_gettime(clockid_t id, struct timespec* ts) {
     ts->tv_nsec = (long)h_clock_nsec;
     return 0;
 }
+/* ---- schedule control for thread-spawn: "the new thread runs to completion before pthread_create returns"
+ * (a legal schedule): the thread has then freed its ThreadStartArg block; ASan reports any later read of it ---- */
+static int h_child_first = 0;
+static int harness_pthread_create(pthread_t* t, const pthread_attr_t* a, void* (*f)(void*), void* arg) {
+    int r = pthread_create(t, a, f, arg);
+    if (r == 0 && h_child_first) pthread_join(*t, NULL);
+    return r;
+}
 #define clock_gettime harness_clock_gettime
+#define pthread_create harness_pthread_create
 #include "wasi.c"
 #undef clock_gettime
+#undef pthread_create
 
 static wasmMemory gmem;
 wasmMemory* wasiMemory(void* instance) { (void)instance; return &gmem; }
@@ -251,11 +261,13 @@ int main(void) {
             printf(bad < 0 ? " seekok\n" : " seekbad:%d\n", bad);
             closedir(d); free(p);
 
-        } else if (strcmp(tok[0], "rd") == 0 && nt == 4) {           /* rd fd bufLen cookie -> errno used hex(buffer) */
+        } else if (strcmp(tok[0], "rd") == 0 && (nt == 4 || nt == 5)) {   /* rd fd bufLen cookie [errnoBefore|keep] -> errno used hex(buffer) */
             U32 fd = (U32)strtoul(tok[1], NULL, 10), bl = (U32)strtoul(tok[2], NULL, 10);
             U64 cookie = strtoull(tok[3], NULL, 10);
             U32 used, res;
             mem_new(8 + (size_t)bl, 0xAA);
+            /* any value of errno is legal state for a caller: an earlier failed host call leaves one behind */
+            if (nt == 5 && strcmp(tok[4], "keep") != 0) errno = atoi(tok[4]);
             res = wasi_snapshot_preview1__fd_readdir(NULL, fd, 8, bl, cookie, 0);
             memcpy(&used, gmem.data, 4);
             printf("%u %u ", res, used); puthex(gmem.data + 8, bl);
@@ -291,6 +303,35 @@ int main(void) {
                 memset(gmem.data, 0xAA, msize);
                 e2 = wasi_snapshot_preview1__args_get(NULL, p, b);
             }
+            printf("%u %u %u %u ", e1, cnt, sz, e2);
+            if (msize <= 2048) puthex(gmem.data, msize); else printf("fnv:%08x", fnv(gmem.data, msize));
+            printf("\n");
+            mem_free();
+            for (i = 0; i < n; i++) free(vec[i]);
+            free(vec);
+
+        } else if (strcmp(tok[0], "argsx") == 0 && nt >= 8) {
+            /* argsx memsize p b cP sP argc n hex*n : wasiInit(argc, argv, env) where argv has n entries then NULL
+               (n = -1: argv is a NULL pointer); args_sizes_get then args_get -> e1 count size e2 <mem> */
+            size_t msize = strtoul(tok[1], NULL, 10);
+            U32 p = (U32)strtoul(tok[2], NULL, 10), b = (U32)strtoul(tok[3], NULL, 10);
+            U32 cP = (U32)strtoul(tok[4], NULL, 10), sP = (U32)strtoul(tok[5], NULL, 10);
+            int argc = atoi(tok[6]), n = atoi(tok[7]), i; U32 e1, e2, cnt, sz;
+            char** vec = NULL;
+            static char* none[] = { NULL };
+            if (nt != 8 + (n > 0 ? n : 0)) { printf("err arity\n"); continue; }
+            if (n >= 0) {
+                vec = (char**)malloc(sizeof(char*) * (size_t)(n + 1));      /* exactly n+1 slots: reading past the NULL is reported */
+                for (i = 0; i < n; i++) { size_t l; vec[i] = (char*)unhex(tok[8 + i], &l, 1); }
+                vec[n] = NULL;
+            }
+            wasi.fds.length = 0;
+            if (!wasiInit(argc, vec, none)) { printf("err init\n"); continue; }
+            mem_new(msize, 0xAA);
+            e1 = wasi_snapshot_preview1__args_sizes_get(NULL, cP, sP);
+            memcpy(&cnt, gmem.data + cP, 4); memcpy(&sz, gmem.data + sP, 4);
+            memset(gmem.data, 0xAA, msize);
+            e2 = wasi_snapshot_preview1__args_get(NULL, p, b);
             printf("%u %u %u %u ", e1, cnt, sz, e2);
             if (msize <= 2048) puthex(gmem.data, msize); else printf("fnv:%08x", fnv(gmem.data, msize));
             printf("\n");
@@ -461,15 +502,18 @@ int main(void) {
             waitpid(pid, &st, 0);
             if (!(WIFEXITED(st) && WEXITSTATUS(st) == 0)) printf("err spawn-child %d\n", st);
 
-        } else if (strcmp(tok[0], "spawnx") == 0 && nt >= 4) {       /* spawnx ncalls argbase k namehex*k : export table of k functions */
+        } else if ((strcmp(tok[0], "spawnx") == 0 || strcmp(tok[0], "spawnxs") == 0) && nt >= 4) {       /* spawnx ncalls argbase k namehex*k : export table of k functions */
             int ncalls = atoi(tok[1]), k = atoi(tok[3]); U32 argbase = (U32)strtoul(tok[2], NULL, 10);
-            pid_t pid; int st = 0;
+            pid_t pid; int st = 0; int ep[2];
             if (k < 0 || k > 16 || nt != 4 + k || ncalls > 64) { printf("err arity\n"); continue; }
             fflush(stdout);
+            if (pipe(ep) != 0) { printf("err pipe\n"); continue; }
             pid = fork();
             if (pid == 0) {
+                close(ep[0]); dup2(ep[1], 2);                       /* sanitizer report of the child -> parent */
                 wasmFuncExport* exps = (wasmFuncExport*)calloc((size_t)k + 1, sizeof(wasmFuncExport));
                 StubInstance inst; I32 rets[64]; int i, j, tries, nok = 0;
+                h_child_first = strcmp(tok[0], "spawnxs") == 0;       /* new thread finishes before pthread_create returns */
                 memset(&inst, 0, sizeof inst);
                 for (i = 0; i < k; i++) { size_t l; exps[i].func = (wasmFunc)xentries[i]; exps[i].name = (char*)unhex(tok[4 + i], &l, 1); }
                 exps[k].func = NULL; exps[k].name = NULL;
@@ -499,8 +543,22 @@ int main(void) {
                 fflush(stdout);
                 _exit(0);
             }
-            waitpid(pid, &st, 0);
-            if (!(WIFEXITED(st) && WEXITSTATUS(st) == 0)) printf("err spawnx-child %d\n", st);
+            {
+                static char rep[16384]; size_t got = 0; ssize_t r;
+                close(ep[1]);
+                while ((r = read(ep[0], rep + got, sizeof rep - 1 - got)) > 0) { got += (size_t)r; if (got >= sizeof rep - 1) break; }
+                while (r > 0) { char sink[4096]; r = read(ep[0], sink, sizeof sink); }
+                close(ep[0]);
+                rep[got] = 0;
+                waitpid(pid, &st, 0);
+                if (!(WIFEXITED(st) && WEXITSTATUS(st) == 0)) {
+                    char kind[64] = "unknown", fn[64] = "?"; char* q = strstr(rep, "ERROR: AddressSanitizer: ");
+                    if (q) sscanf(q, "ERROR: AddressSanitizer: %63s", kind);
+                    q = strstr(rep, " in wasi__");
+                    if (q) sscanf(q, " in %63s", fn);
+                    printf("crash child asan:%s in %s (status %d)\n", kind, fn, st);
+                }
+            }
 
         } else if ((strcmp(tok[0], "mkdir") == 0 || strcmp(tok[0], "rmdir") == 0 || strcmp(tok[0], "unlink") == 0) && nt == 4) {
             /* op fd availhex len : the guest path bytes are the LAST bytes of the memory */
@@ -513,23 +571,30 @@ int main(void) {
             printf("%u\n", res);
             mem_free(); free(a);
 
-        } else if (strcmp(tok[0], "stat") == 0 && nt == 4) {          /* stat fd availhex len -> errno filetype size */
-            size_t al; unsigned char* a = unhex(tok[2], &al, 0);
+        } else if (strcmp(tok[0], "stat") == 0 && nt == 4) {          /* stat fd availhex len -> errno filetype size frameOK */
+            size_t al, i; unsigned char* a = unhex(tok[2], &al, 0);
             U32 fd = (U32)strtoul(tok[1], NULL, 10), len = (U32)strtoul(tok[3], NULL, 10), res;
-            U64 size = 0;
-            mem_new(64 + al, 0xAA); memcpy(gmem.data + 64, a, al);
-            res = wasi_snapshot_preview1__path_filestat_get(NULL, fd, 0, 64, len, 0);
-            memcpy(&size, gmem.data + 32, 8);
-            if (res == 0) printf("0 %u %llu\n", gmem.data[16], (unsigned long long)size); else printf("%u\n", res);
+            U64 size = 0; int frame = 1;
+            /* [0,8) guard | [8,72) filestat | [72,80) guard | path */
+            mem_new(80 + al, 0xAA); memcpy(gmem.data + 80, a, al);
+            res = wasi_snapshot_preview1__path_filestat_get(NULL, fd, 0, 80, len, 8);
+            memcpy(&size, gmem.data + 8 + 32, 8);
+            for (i = 0; i < 8; i++) if (gmem.data[i] != 0xAA || gmem.data[72 + i] != 0xAA) frame = 0;
+            if (memcmp(gmem.data + 80, a, al) != 0) frame = 0;
+            if (res != 0) for (i = 8; i < 72; i++) if (gmem.data[i] != 0xAA) frame = 0;
+            if (res == 0) printf("0 %u %llu frame%d\n", gmem.data[8 + 16], (unsigned long long)size, frame); else printf("%u frame%d\n", res, frame);
             mem_free(); free(a);
 
-        } else if (strcmp(tok[0], "readlink") == 0 && nt == 5) {      /* readlink fd availhex len bufLen -> errno n hex */
+        } else if (strcmp(tok[0], "readlink") == 0 && nt == 5) {      /* readlink fd availhex len bufLen -> errno n hex(memory before the path) pathIntact */
             size_t al; unsigned char* a = unhex(tok[2], &al, 0);
             U32 fd = (U32)strtoul(tok[1], NULL, 10), len = (U32)strtoul(tok[3], NULL, 10), bl = (U32)strtoul(tok[4], NULL, 10), res, n = 0;
-            mem_new(8 + (size_t)bl + al, 0xAA); memcpy(gmem.data + 8 + bl, a, al);
-            res = wasi_snapshot_preview1__path_readlink(NULL, fd, 8 + bl, len, 8, bl, 0);
+            /* [0,4) length cell | [4,16) guard | [16,16+bl) buffer | 8 guard bytes | path (ends the memory) */
+            size_t pbase = 24 + (size_t)bl;
+            mem_new(pbase + al, 0xAA); memcpy(gmem.data + pbase, a, al);
+            res = wasi_snapshot_preview1__path_readlink(NULL, fd, (U32)pbase, len, 16, bl, 0);
             memcpy(&n, gmem.data, 4);
-            if (res == 0) { printf("0 %u ", n); puthex(gmem.data + 8, n <= bl ? n : bl); printf("\n"); } else printf("%u\n", res);
+            printf("%u %u ", res, res == 0 ? n : 0); puthex(gmem.data, pbase);
+            printf(" path%d\n", memcmp(gmem.data + pbase, a, al) == 0);
             mem_free(); free(a);
 
         } else if (strcmp(tok[0], "rename") == 0 && nt == 7) {        /* rename fd1 avail1 len1 fd2 avail2 len2 */
